@@ -815,7 +815,14 @@ func (s *vfSession) monitorC03(x *vfSide, sn *vfSnap) { //nolint:cyclop
 			}
 		}
 	}
-	gotResp, gotRespUC, gotNomReq, gotNomVal := false, false, false, false
+	// requests this agent emitted to the same remote from ANOTHER local socket
+	reqTxOtherSock := map[string]bool{}
+	for _, d := range s.sw.wireFrom(0) {
+		if d.Emitter == x.name && !d.Forged && d.Stun != nil && d.Stun.Class == "request" && d.Stun.Binding && d.SrcPriv != lAP && d.Dst == rAP {
+			reqTxOtherSock[d.Stun.TxID] = true
+		}
+	}
+	gotResp, gotRespUC, gotNomReq, gotNomVal, gotRespOtherSock := false, false, false, false, false
 	for _, dl := range s.sw.deliveredCopy() {
 		d := dl.Dgram
 		if dl.To != x.name || d.Stun == nil || !d.Stun.Binding || dl.Sock != lAP || d.Src != rAP {
@@ -828,6 +835,8 @@ func (s *vfSession) monitorC03(x *vfSide, sn *vfSnap) { //nolint:cyclop
 				if reqTxUC[d.Stun.TxID] {
 					gotRespUC = true
 				}
+			} else if peerAuth(d.Stun.AuthBy) && reqTxOtherSock[d.Stun.TxID] {
+				gotRespOtherSock = true // the answer to a check sent from another local socket arrived on this one
 			}
 		case "request":
 			if selfAuth(d.Stun.AuthBy) && d.Stun.Username == sn.LocalUfrag+":"+sn.RemoteUfrag {
@@ -853,7 +862,9 @@ func (s *vfSession) monitorC03(x *vfSide, sn *vfSnap) { //nolint:cyclop
 			s.viol("C03", "lite-selected-without-nomination", fmt.Sprintf("%s (lite, controlled) selected %s without an authenticated nomination on that pair", x.name, sn.Selected), desc)
 		}
 	case sn.Controlling:
-		if !gotRespUC {
+		if !gotRespUC && gotRespOtherSock {
+			s.viol("C03", "controlling-selected-on-response-received-on-another-local-socket", fmt.Sprintf("%s (controlling) selected %s on a success response that answered a request sent from a different local socket", x.name, sn.Selected), desc)
+		} else if !gotRespUC {
 			sig := "controlling-selected-without-nominating-check"
 			if gotResp {
 				sig = "controlling-selected-on-plain-response"
@@ -861,7 +872,9 @@ func (s *vfSession) monitorC03(x *vfSide, sn *vfSnap) { //nolint:cyclop
 			s.viol("C03", sig, fmt.Sprintf("%s (controlling) selected %s but no authenticated success response answering one of its USE-CANDIDATE requests on that pair was delivered (plain response seen: %v)", x.name, sn.Selected, gotResp), desc)
 		}
 	default:
-		if !gotResp {
+		if !gotResp && gotRespOtherSock {
+			s.viol("C03", "controlled-selected-on-response-received-on-another-local-socket", fmt.Sprintf("%s (controlled) selected %s; the only success response it got on that pair answered a check it had sent from a different local socket (transaction matched by id and destination, not by sending candidate)", x.name, sn.Selected), desc)
+		} else if !gotResp {
 			s.viol("C03", "controlled-selected-without-own-check", fmt.Sprintf("%s (controlled) selected %s but no authenticated, transaction-matched success response to a check of its own on that pair was delivered", x.name, sn.Selected), desc)
 		}
 		if !gotNomReq {
